@@ -48,7 +48,7 @@ ClausesOf ==
             "C05_PathNames"},
    C06 |-> {"C06_EachListenerOnce", "C06_PairsInDatagramOrder", "C06_PtrFloor", "C06_ReceivedTtl", "C06_CreatedIsArrival",
             "C06_OldIffCached", "C06_RefreshVisible", "C06_NotifyBeforeApply", "C06_CompleteAfterApply",
-            "C06_NoCallWithoutUpdate"},
+            "C06_NoCallWithoutUpdate", "C06_ListenerManagement"},
    C04 |-> {"C04_CallbackAfterCache", "C04_OnlyBrowsedTypes", "C04_Alternate", "C04_InitialReplay", "C04_LiveMatchesCache"}]
 Own(clause) == \/ D.own = "ALL"
                \/ clause \in {"Trace_Malformed", "C15_NoException"}
@@ -249,6 +249,9 @@ Step(st, e) ==
     [] e.ev = "lcall"       -> OnLcall(st, e)
     [] e.ev = "ladd"        -> [st EXCEPT !.lst = @ \cup {e.lid}]
     [] e.ev = "lrem"        -> [st EXCEPT !.lst = @ \ {e.lid}]
+    [] e.ev = "lrem_again"  -> st         \* removing a listener that is not registered: nothing changes
+    \* adding or removing a listener, at any point and also one that is not registered, does not raise
+    [] e.ev = "lexc"        -> IF Bad(TRUE, "C06_ListenerManagement") THEN Fail(st, "C06_ListenerManagement") ELSE st
     [] e.ev = "cb"          -> OnCb(st, e)
     [] e.ev = "bstart"      -> OnBstart(st, e)
     [] e.ev = "bstart_done" -> OnBstartDone(st, e)
